@@ -99,7 +99,7 @@ def tie(ctx, model_ok=True):
                     'an object, a look-alike string or a non-finite float')}
     terms, info = [], []
     nontriv = 0
-    for model, tyspec, v in dumpcase.gen_cases(rnd, n_models, 8):
+    for model, tyspec, v in dumpcase.gen_cases(rnd, n_models, 8, yattrs=True):
         classes = model.registered_classes()
         dumps = yatiml.dumps_function(*classes)
         before = dumpcase.snapshot(v)
